@@ -9,77 +9,130 @@ import (
 	"berty.tech/go-ipfs-log/internal/vx"
 )
 
-func sgn(x int) int {
-	if x < 0 {
-		return -1
-	}
-	if x > 0 {
-		return 1
-	}
-	return 0
-}
-
+// symEntry: an entry whose clock time ranges over all 2^64 values, whose clock id is a byte
+// string of symbolic content and length 0..IDLEN, and whose hash is the atom CID #i (symbolic rank).
 func symEntry(name string, i int) iface.IPFSLogEntry {
 	return &entry.Entry{
 		LogID:   "X",
 		Payload: []byte("p"),
 		Hash:    vx.Cid(i),
-		Clock:   entry.NewLamportClock(vx.Bytes(name+".id", 2), vx.Int(name+".time")),
+		Clock:   entry.NewLamportClock(vx.Bytes(name+".id", vx.Param("IDLEN", 1)), vx.Int(name+".time")),
 	}
 }
 
-// H_C19_hashorder: SortByEntryHash is a strict total order respecting clock time.
+func sameID(a, b iface.IPFSLogEntry) bool {
+	x, y := a.GetClock().GetID(), b.GetClock().GetID()
+	if len(x) != len(y) {
+		return false
+	}
+	eq := true
+	for i := range x {
+		eq = vx.And(eq, x[i] == y[i])
+	}
+	return eq
+}
+
+func timeOf(e iface.IPFSLogEntry) int { return e.GetClock().GetTime() }
+
+// H_C19_hashorder: SortByEntryHash is a strict total order on distinct entries that respects clock time.
 func H_C19_hashorder() {
 	a, b, c := symEntry("a", 0), symEntry("b", 1), symEntry("c", 2)
-	ab, _ := sorting.SortByEntryHash(a, b)
-	ba, _ := sorting.SortByEntryHash(b, a)
-	bc, _ := sorting.SortByEntryHash(b, c)
-	ac, _ := sorting.SortByEntryHash(a, c)
+	ab, e1 := sorting.SortByEntryHash(a, b)
+	ba, e2 := sorting.SortByEntryHash(b, a)
+	bc, e3 := sorting.SortByEntryHash(b, c)
+	ac, e4 := sorting.SortByEntryHash(a, c)
+	aa, _ := sorting.SortByEntryHash(a, a)
 	vx.Cover("compared")
-	vx.Assert("C19", sgn(ab) == -sgn(ba), "antisymmetry SortByEntryHash")
-	vx.Assert("C19", ab != 0, "totality on distinct entries")
-	vx.Assert("C19", !(ab < 0 && bc < 0) || ac < 0, "transitivity SortByEntryHash")
-	vx.Assert("C19", !(a.GetClock().GetTime() < b.GetClock().GetTime()) || ab < 0, "respects clock time")
+	vx.Assert("C19", e1 == nil && e2 == nil && e3 == nil && e4 == nil, "SortByEntryHash returns no error")
+	vx.Assert("C19", aa == 0, "irreflexive: an entry is not ordered before itself (SortByEntryHash)")
+	vx.Assert("C19", vx.Sgn(ab) == -vx.Sgn(ba), "antisymmetry SortByEntryHash")
+	vx.Assert("C19", ab != 0, "totality on distinct entries SortByEntryHash")
+	vx.Assert("C19", vx.Implies(vx.And(ab < 0, bc < 0), ac < 0), "transitivity SortByEntryHash")
+	vx.Assert("C19", vx.Implies(timeOf(a) < timeOf(b), ab < 0), "SortByEntryHash orders smaller clock time first")
 }
 
-// H_C19_clock: LamportClock.Compare antisymmetric and transitive.
+// H_C19_lww: LastWriteWins is a strict total order whenever (clock id, time) pairs are distinct;
+// FirstWriteWins is its exact reverse; both respect clock time.
+func H_C19_lww() {
+	a, b, c := symEntry("a", 0), symEntry("b", 1), symEntry("c", 2)
+	dAB := vx.Not(vx.And(sameID(a, b), timeOf(a) == timeOf(b)))
+	dBC := vx.Not(vx.And(sameID(b, c), timeOf(b) == timeOf(c)))
+	dAC := vx.Not(vx.And(sameID(a, c), timeOf(a) == timeOf(c)))
+	ab, _ := sorting.LastWriteWins(a, b)
+	ba, _ := sorting.LastWriteWins(b, a)
+	bc, _ := sorting.LastWriteWins(b, c)
+	ac, _ := sorting.LastWriteWins(a, c)
+	vx.Cover("compared")
+	vx.Assert("C19", vx.Implies(dAB, vx.Sgn(ab) == -vx.Sgn(ba)), "antisymmetry LastWriteWins (distinct id/time)")
+	vx.Assert("C19", vx.Implies(dAB, ab != 0), "totality LastWriteWins (distinct id/time)")
+	vx.Assert("C19", vx.Implies(vx.And(vx.And(dAB, dBC), vx.And(dAC, vx.And(ab < 0, bc < 0))), ac < 0), "transitivity LastWriteWins (distinct id/time)")
+	vx.Assert("C19", vx.Implies(timeOf(a) < timeOf(b), ab < 0), "LastWriteWins orders smaller clock time first")
+	f, err := sorting.FirstWriteWins(a, b)
+	vx.Assert("C19", err == nil, "FirstWriteWins returns no error")
+	vx.Assert("C19", vx.Sgn(f) == -vx.Sgn(ab), "FirstWriteWins is the exact reverse of LastWriteWins")
+	nz, nzerr := sorting.NoZeroes(sorting.LastWriteWins)(a, b)
+	vx.Assert("C19", vx.Implies(dAB, vx.And(nzerr == nil, vx.Sgn(nz) == vx.Sgn(ab))), "NoZeroes passes a non-zero verdict through")
+}
+
+// H_C19_clock: LamportClock.Compare is antisymmetric, transitive and respects time.
 func H_C19_clock() {
-	a := entry.NewLamportClock(vx.Bytes("a.id", 2), vx.Int("a.time"))
-	b := entry.NewLamportClock(vx.Bytes("b.id", 2), vx.Int("b.time"))
-	c := entry.NewLamportClock(vx.Bytes("c.id", 2), vx.Int("c.time"))
+	n := vx.Param("IDLEN", 1)
+	a := entry.NewLamportClock(vx.Bytes("a.id", n), vx.Int("a.time"))
+	b := entry.NewLamportClock(vx.Bytes("b.id", n), vx.Int("b.time"))
+	c := entry.NewLamportClock(vx.Bytes("c.id", n), vx.Int("c.time"))
 	ab, ba, bc, ac := a.Compare(b), b.Compare(a), b.Compare(c), a.Compare(c)
-	vx.Assert("C19", sgn(ab) == -sgn(ba), "antisymmetry LamportClock.Compare")
-	vx.Assert("C19", !(ab < 0 && bc < 0) || ac < 0, "transitivity LamportClock.Compare")
-	vx.Assert("C19", !(a.GetTime() < b.GetTime()) || ab < 0, "Compare respects time")
+	vx.Cover("compared")
+	vx.Assert("C19", vx.Sgn(ab) == -vx.Sgn(ba), "antisymmetry LamportClock.Compare")
+	vx.Assert("C19", vx.Implies(vx.And(ab < 0, bc < 0), ac < 0), "transitivity LamportClock.Compare")
+	vx.Assert("C19", vx.Implies(a.GetTime() < b.GetTime(), ab < 0), "LamportClock.Compare orders smaller time first")
+	x := &entry.Entry{Clock: a, Hash: vx.Cid(0)}
+	y := &entry.Entry{Clock: b, Hash: vx.Cid(1)}
+	cmp, err := sorting.Compare(x, y)
+	vx.Assert("C19", err == nil && vx.Sgn(cmp) == vx.Sgn(ab), "sorting.Compare agrees with the clock comparison")
 }
 
-// H_C19_fww: FirstWriteWins is the reverse of LastWriteWins.
-func H_C19_fww() {
-	a, b := symEntry("a", 0), symEntry("b", 1)
-	l, _ := sorting.LastWriteWins(a, b)
-	f, _ := sorting.FirstWriteWins(a, b)
-	vx.Assert("C19", sgn(f) == -sgn(l), "FirstWriteWins reverses LastWriteWins")
-}
+var perms3 = [][]int{{0, 1, 2}, {0, 2, 1}, {1, 0, 2}, {1, 2, 0}, {2, 0, 1}, {2, 1, 0}}
 
-// H_C19_sort: Sort with the hash order yields a sorted permutation, independent of input order.
+// H_C19_sort: Sort with a lawful order yields a sorted permutation of the input, the same for every input order.
 func H_C19_sort() {
 	es := []iface.IPFSLogEntry{symEntry("a", 0), symEntry("b", 1), symEntry("c", 2)}
-	perm := vx.Choice("perm", 6)
-	idx := [][]int{{0, 1, 2}, {0, 2, 1}, {1, 0, 2}, {1, 2, 0}, {2, 0, 1}, {2, 1, 0}}[perm]
+	cmp := sorting.SortByEntryHash
+	if vx.Param("LWW", 0) == 1 {
+		cmp = sorting.LastWriteWins
+		vx.Assume(vx.Not(vx.And(sameID(es[0], es[1]), timeOf(es[0]) == timeOf(es[1]))))
+		vx.Assume(vx.Not(vx.And(sameID(es[1], es[2]), timeOf(es[1]) == timeOf(es[2]))))
+		vx.Assume(vx.Not(vx.And(sameID(es[0], es[2]), timeOf(es[0]) == timeOf(es[2]))))
+	}
+	idx := perms3[vx.Choice("perm", 6)]
 	in1 := []iface.IPFSLogEntry{es[0], es[1], es[2]}
 	in2 := []iface.IPFSLogEntry{es[idx[0]], es[idx[1]], es[idx[2]]}
-	sorting.Sort(sorting.SortByEntryHash, in1, false)
-	sorting.Sort(sorting.SortByEntryHash, in2, false)
+	rev := vx.Param("REVERSE", 0) == 1
+	sorting.Sort(cmp, in1, rev)
+	sorting.Sort(cmp, in2, rev)
+	vx.Cover("sorted")
 	for i := 0; i < 3; i++ {
-		vx.Assert("C19", in1[i] == in2[i], "Sort independent of input order")
+		vx.Assert("C19", in1[i] == in2[i], "Sort is deterministic: same result for every input permutation")
 	}
+	seen := 0
+	for i := 0; i < 3; i++ {
+		for j := 0; j < 3; j++ {
+			if in1[i] == es[j] {
+				seen |= 1 << j
+			}
+		}
+	}
+	vx.Assert("C19", seen == 7, "Sort returns a permutation of its input")
 	for i := 0; i+1 < 3; i++ {
-		r, _ := sorting.SortByEntryHash(in1[i], in1[i+1])
-		vx.Assert("C19", r < 0, "Sort output ascending")
+		r, _ := cmp(in1[i], in1[i+1])
+		if rev {
+			vx.Assert("C19", r > 0, "Sort output is ordered (descending)")
+		} else {
+			vx.Assert("C19", r < 0, "Sort output is ordered (ascending)")
+		}
 	}
 }
 
 var _ = register("H_C19_hashorder", H_C19_hashorder)
+var _ = register("H_C19_lww", H_C19_lww)
 var _ = register("H_C19_clock", H_C19_clock)
-var _ = register("H_C19_fww", H_C19_fww)
 var _ = register("H_C19_sort", H_C19_sort)
